@@ -1237,10 +1237,17 @@ int32_t tls13ParsePreSharedKey(ssl_t *ssl,
                 rc = tls13FindSessionPsk(ssl,
                         idBuf.buf.start, identityLen,
                         &psk);
+                /* ... and a session that never authenticated its client
+                   is not continued on a connection that demands client
+                   authentication (a resumed handshake has no Certificate) */
                 if (rc == PS_SUCCESS && psk != NULL &&
                     !tls13ResumptionPskExpired(ssl, psk) &&
                     tls13GetPskHmacAlg(psk) ==
-                        tls13CipherIdToHmacAlg(ssl->cipher->ident))
+                        tls13CipherIdToHmacAlg(ssl->cipher->ident) &&
+                    !((ssl->flags & SSL_FLAGS_CLIENT_AUTH) &&
+                        psk->isResumptionPsk == PS_TRUE &&
+                        psk->params != NULL &&
+                        !psk->params->clientAuth))
                 {
                     foundPsk = tls13ServerFoundSupportedPsk(ssl, psk, ix);
                 }
